@@ -10,4 +10,5 @@ def check(ctx, rep):
     cache.cache_5(ctx, rep)
     cache.cache_6_7(ctx, rep)
     cache.cache_9_10(ctx, rep)   # entries are pickled verbatim; the save does not depend on the cache file that is already there
+    cache.cache_12(ctx, rep)     # no module-level state besides parser_cache (nothing remembered about the file system)
     rep.note('Not decided: equality of the returned tree with a fresh parse.')
